@@ -78,7 +78,7 @@ def run(ctx):
         kind = int(rng.integers(3))
         N = 0 if rng.random() < 0.06 else int(rng.integers(4, 30))     # (a sample without events still has channels and limits)
         if cid[1] % 25 == 6:
-            N, D = int(rng.choice([65537, 100001])), min(D, 3)         # tens of thousands of events (chunked / fast paths)
+            N, D = int(rng.choice([65537, 140001, 300001])), min(D, 3)         # tens of thousands of events (chunked / fast paths)
         if kind == 0:
             s = zoo.write_and_load(F, zoo.int_spec(rng, n=N, d=D), path)
         elif kind == 1:
